@@ -31,3 +31,12 @@ MUTANTS += [
  dict(name='c19-g1-generator-y-negated-typo', prop='C19', expect='xconst|g1affine_generator',
       edits=[('include/bls12_381/curve.hpp', '.y = {{{{.std_words = { 0xce72271,', '.y = {{{{.std_words = { 0xce72272,')]),
 ]
+MUTANTS += [
+ dict(name='c17-revert-D1-freeslot-uint32', prop='C17', revert='D1', expect='R-ALIGN'),
+ dict(name='c17-c-array-3', prop='C17', expect='R-BOUNDS',
+      edits=[('include/bls12_381/decomposition.hpp', 'BigInt<64> c[4];', 'BigInt<64> c[3];')]),
+ dict(name='c17-loop-bound-5-over-4-array', prop='C17', expect='R-BOUNDS', tier='quick',
+      edits=[('src/bls12_381/fq12_cyclotomic.cpp', 'for (unsigned int i = 0; i != 4; i++) {', 'for (unsigned int i = 0; i != 5; i++) {')]),
+ dict(name='c17-params-overlay-uint16', prop='C17', expect='R-ALIGN',
+      edits=[('src/wkdibe/marshal.cpp', 'struct SecretKeyMarshalled {\n        uint8_t signature;', 'struct SecretKeyMarshalled {\n        uint16_t signature;')]),
+]
